@@ -59,7 +59,56 @@ theorem csv2d_roundtrip {V T : Type} [DecidableEq V] (c : Codec V T) (n : Num V)
   | nil =>
     cases dom <;> rfl
   | cons f fs' =>
-    have := read2dRows_spec c n hF near degen (f :: fs') (by simp) skip dom hnear hlen hdeg
+    have := read2dRows_spec c n hF near degen (f :: fs') (by simp) skip dom none hnear hlen hdeg
+    simpa [valsSpec] using this
+
+/-- 2-D round trip with the real tolerance tests (values = rationals, which include every binary64):
+    the abstract hypotheses of `csv2d_roundtrip` become DECIDABLE conditions on the input network —
+    `Separated`: two different end points differ by more than tol in some coordinate (for the network's
+    tol and for the reader's tol), `Constructible`: LineFracture accepts every fracture.  The writer's
+    table test is `np.allclose(rtol=0, atol=tol)`, the reader's `uniquify_point_set` test is the squared
+    distance, the constructor's test is `np.isclose` with numpy's defaults. -/
+theorem csv2d_roundtrip_tol {T : Type} (c : Codec Rat T) (n : Num Rat) (tolW tolR : Rat)
+    (fs : List (Frac2 Rat)) (hdr : Bool) (skip : Nat) (dom : Option (Box2 Rat)) (hF : Faithful c n)
+    (hskip : skip = 0 ∨ (hdr = true ∧ skip = 1)) (h0 : 0 ≤ tolR)
+    (hW : Separated tolW fs) (hR : Separated tolR fs) (hC : Constructible fs) :
+    ∃ file, write2d c (closeQ tolW) fs hdr = .ok file ∧
+      read2d c n (nearQ tolR) degenQ file ⟨skip, none, none, false, dom⟩
+        = .ok ⟨fs.map strip, domOr n dom (endpoints fs), (List.range' 0 fs.length).map Int.ofNat⟩ :=
+  csv2d_roundtrip c n (closeQ tolW) (nearQ tolR) degenQ fs hdr skip dom hF hskip
+    (closeQ_discrete tolW fs hW) (nearQ_discrete tolR h0 fs hR)
+    (fun f hf => (hC f hf).1) (fun f hf => (hC f hf).2)
+
+/-- `max_num_fracs = k + 1` on a written file: the first `k + 1` fractures come back (ordered, ids
+    0..k), the domain is the argument or the bounding box of THEIR end points. -/
+theorem csv2d_roundtrip_max {V T : Type} [DecidableEq V] (c : Codec V T) (n : Num V)
+    (close near degen : Pt2 V → Pt2 V → Bool) (fs : List (Frac2 V)) (hdr : Bool) (skip k : Nat)
+    (dom : Option (Box2 V)) (hF : Faithful c n)
+    (hskip : skip = 0 ∨ (hdr = true ∧ skip = 1))
+    (hclose : ∀ p ∈ endpoints fs, ∀ q ∈ endpoints fs, close p q = true → p = q)
+    (hnear : ∀ p ∈ endpoints fs, ∀ q ∈ endpoints fs, near p q = true → p = q)
+    (hlen : ∀ f ∈ fs, f.a ≠ f.b) (hdeg : ∀ f ∈ fs, degen f.a f.b = false) :
+    ∃ file, write2d c close fs hdr = .ok file ∧
+      read2d c n near degen file ⟨skip, none, some (k + 1), false, dom⟩
+        = .ok ⟨(fs.take (k + 1)).map strip, domOr n dom (endpoints (fs.take (k + 1))),
+               (List.range' 0 (fs.take (k + 1)).length).map Int.ofNat⟩ := by
+  refine ⟨_, write2d_spec c close fs hdr hclose, ?_⟩
+  have hdrop : ((if hdr then Line.comment header2 :: rowsSpec c 0 fs else rowsSpec c 0 fs).drop skip).filterMap
+      cellsOf = (rowsSpec c 0 fs).filterMap cellsOf := by
+    rcases hskip with rfl | ⟨rfl, rfl⟩
+    · cases hdr
+      · simp
+      · simp only [if_true, List.drop_zero]
+        exact List.filterMap_cons_none rfl
+    · simp
+  simp only [read2d, hdrop, decode_rowsSpec c n hF, sameLen_valsSpec, atleast2d_valsSpec, valsSpec_take]
+  cases fs with
+  | nil => cases dom <;> rfl
+  | cons f fs' =>
+    have hsub := endpoints_take_subset (k + 1) (f :: fs')
+    have := read2dRows_spec c n hF near degen ((f :: fs').take (k + 1)) (by simp) skip dom (some (k + 1))
+      (fun p hp q hq => hnear p (hsub p hp) q (hsub q hq))
+      (fun g hg => hlen g (List.mem_of_mem_take hg)) (fun g hg => hdeg g (List.mem_of_mem_take hg))
     simpa [valsSpec] using this
 
 /-- Polyline files (format 2, `polyline=True`; porepy has no writer for this format, so this is the
@@ -301,10 +350,31 @@ theorem txt_roundtrip {V F T : Type} (enc : F → V → T) (dec : T → Option V
   obtain ⟨file, hw, hr⟩ := txt_roundtrip_rounded enc dec (fun _ v => v) hcodec cols k hcols hlen hnames hfirst
   exact ⟨file, hw, by simpa using hr⟩
 
+/-- txt round trip as a DICTIONARY (what `read_data_from_txt` returns): with pairwise different names,
+    looking up any written name in `dict(zip(names, columns))` of the file read back gives that array
+    (with `rnd` applied entry-wise; `rnd = id` for a faithful format). -/
+theorem txt_roundtrip_dict {V F T : Type} (enc : F → V → T) (dec : T → Option V) (rnd : F → V → V)
+    (hcodec : ∀ f v, dec (enc f v) = some (rnd f v))
+    (cols : List (TxtCol V F)) (k : Nat) (hcols : cols ≠ []) (hlen : ∀ c ∈ cols, c.arr.length = k)
+    (hnames : ∀ w ∈ cols.map (·.name), w ≠ [] ∧ ∀ ch ∈ w, isWs ch = false)
+    (hfirst : ∀ w, (cols.map (·.name)).head? = some w → w.head? ≠ some '#')
+    (hnd : (cols.map (·.name)).Nodup) :
+    ∃ file l, exportTxt enc cols = .ok file ∧ readTxt dec file = .ok l ∧
+      ∀ c ∈ cols, dictGet l c.name = some (c.arr.map (rnd c.fmt)) := by
+  obtain ⟨file, hw, hr⟩ := txt_roundtrip_rounded enc dec rnd hcodec cols k hcols hlen hnames hfirst
+  refine ⟨file, _, hw, hr, ?_⟩
+  intro c hc
+  exact foldl_key (cols.map (fun c => (c.name, c.arr.map (rnd c.fmt)))) (c.name, c.arr.map (rnd c.fmt)) none
+    (List.mem_map_of_mem hc) (by
+      rw [List.map_map]
+      exact hnd)
+
 /-! ### non-vacuity: concrete instances (integers as values and tokens) -/
 
 section Examples
 
+def cQ' : Codec Rat Rat := ⟨fun v => v, fun t => some t, fun k => (k : Rat)⟩
+def nQ' : Num Rat := ⟨fun a b => decide (a < b), fun v => v.num.tdiv v.den, fun k => (k : Rat)⟩
 def cI : Codec Int Int := ⟨fun v => v, fun t => some t, fun k => (k : Int)⟩
 def nI : Num Int := ⟨fun a b => decide (a < b), fun v => v, fun k => (k : Int)⟩
 theorem faithfulI : Faithful cI nI := ⟨fun _ => rfl, fun _ => rfl, fun _ => rfl⟩
@@ -417,6 +487,29 @@ example : readElliptic cI (fun p => .ok [(p.getD 0 0, p.getD 1 0, p.getD 8 0)])
   rw [show true = (some (⟨0, 0, 0, 9, 9, 9⟩ : Box3 Int)).isSome from rfl,
     elliptic_transparent cI nI faithfulI _ _ _ (by decide)]
   rfl
+
+/-- the decidable input conditions on a concrete network over Rat (tol = 1/100): two fractures sharing
+    an end point, a third one 3/100 away from it -/
+def fsQ : List (Frac2 Rat) :=
+  [⟨(0, 0), (1, 1 / 2), []⟩, ⟨(1, 1 / 2), (2, 3), []⟩, ⟨(1 + 3 / 100, 1 / 2), (0, 3), []⟩]
+
+example : ∃ file, write2d cQ' (closeQ (1 / 100)) fsQ true = .ok file ∧
+    read2d cQ' nQ' (nearQ (1 / 100)) degenQ file ⟨1, none, none, false, none⟩
+      = .ok ⟨fsQ.map strip, domOr nQ' none (endpoints fsQ), [0, 1, 2]⟩ :=
+  csv2d_roundtrip_tol cQ' nQ' (1 / 100) (1 / 100) fsQ true 1 none
+    ⟨fun _ => rfl, fun _ => rfl, fun k => by simp [nQ']⟩
+    (Or.inr ⟨rfl, rfl⟩) (by decide +kernel) (by decide +kernel) (by decide +kernel) (by decide +kernel)
+
+example : ∃ file, write2d cI closeI fsI true = .ok file ∧
+    read2d cI nI nearI degenI file ⟨1, none, some 2, false, none⟩
+      = .ok ⟨(fsI.take 2).map strip, domOr nI none (endpoints (fsI.take 2)), [0, 1]⟩ :=
+  csv2d_roundtrip_max cI nI closeI nearI degenI fsI true 1 1 none faithfulI (Or.inr ⟨rfl, rfl⟩)
+    (by decide) (by decide) (by decide) (by decide)
+
+example : ∃ file l, exportTxt encI colsI = .ok file ∧ readTxt (fun t => some t) file = .ok l ∧
+    ∀ c ∈ colsI, dictGet l c.name = some (c.arr.map (encI c.fmt)) :=
+  txt_roundtrip_dict encI (fun t => some t) encI (fun _ _ => rfl) colsI 3 (by decide) (by decide)
+    (by decide) (by decide) (by decide)
 
 end Examples
 
